@@ -546,6 +546,8 @@ def ite(c, a, b):
     a, b = R(a), R(b)
     if a.concrete and b.concrete and a.v == b.v:
         return a
+    if not a.concrete and not b.concrete and a.v.eq(b.v):
+        return a  # both branches are the same term
     return R(z3.If(c.v, a.z3(), b.z3()))
 
 
@@ -734,6 +736,10 @@ class UFs:
             if rn * rn == n and rd * rd == d:
                 return R(Fraction(rn, rd))
         xe = x.z3()
+        if not x.concrete and self.c.notes.get("canon_sqrt"):
+            # canonical sum-of-monomials form (modulo s*s = c for the constant square roots s met so far, which the
+            # path already assumes): polynomially equal arguments become the same term, hence the same application
+            xe = self._canonical(xe)
         if not x.concrete:
             self.c.definedness("sqrt of a negative number", xe >= 0)
         r, new = self._fresh("sqrt", (xe,))
@@ -742,6 +748,25 @@ class UFs:
         if x.concrete:
             self.sqrt_consts[r.get_id()] = (r, x.v)
         return R(r)
+
+    def _canonical(self, xe):
+        from . import poly
+
+        st = self.c.notes.get("_canon_norm")
+        if st is None:
+            st = self.c.notes["_canon_norm"] = (poly.Normaliser(), set())
+        norm, known = st
+        for rid, (r, val) in list(self.sqrt_consts.items()):
+            if rid not in known:
+                known.add(rid)
+                norm.pending_rules.append((r, val))
+        try:
+            num, den = norm.ratfun(xe)
+        except HarnessError:
+            return z3.simplify(xe, som=True, sort_sums=True)
+        if den != poly.p_const(1):
+            return z3.simplify(xe, som=True, sort_sums=True)
+        return norm.to_z3(norm.reduce(num))
 
     def exp(self, x):
         x = R(x)
